@@ -81,3 +81,7 @@ impl VM {
         ensures o == old(self).stack@.last(), final(self).stack@ == old(self).stack@.drop_last(), same_but_stack(*old(self), *final(self))
     { unimplemented!() }
 }
+
+// R11: std::mem::take on a Vec (no vstd specification): returns the old value and leaves an empty Vec behind
+#[verifier::external_body]
+pub fn mem_take_vec<T>(v: &mut Vec<T>) -> (r: Vec<T>) ensures r@ == old(v)@, final(v)@.len() == 0 { std::mem::take(v) }
